@@ -3,7 +3,7 @@
 use std::collections::BTreeMap;
 use std::fmt::Write;
 
-#[derive(Clone, Debug, PartialEq, Eq, Hash)]
+#[derive(Clone, Debug, PartialEq, Eq, Hash, serde::Serialize, serde::Deserialize)]
 pub enum Arg {
     Str(String),
     Num(i64),
@@ -28,7 +28,7 @@ pub enum Arg {
     Raw(String),
 }
 
-#[derive(Clone, Debug, PartialEq, Eq, Hash)]
+#[derive(Clone, Debug, PartialEq, Eq, Hash, serde::Serialize, serde::Deserialize)]
 pub enum PeerRef {
     /// peer by *name*; the printer substitutes the peer id
     Name(String),
@@ -38,20 +38,20 @@ pub enum PeerRef {
     Raw(String),
 }
 
-#[derive(Clone, Debug, PartialEq, Eq, Hash)]
+#[derive(Clone, Debug, PartialEq, Eq, Hash, serde::Serialize, serde::Deserialize)]
 pub enum Out {
     None,
     Scalar(String),
     Stream(String),
 }
 
-#[derive(Clone, Debug, PartialEq, Eq, Hash)]
+#[derive(Clone, Debug, PartialEq, Eq, Hash, serde::Serialize, serde::Deserialize)]
 pub enum FailArg {
     Lit(i64, String),
     Arg(Arg),
 }
 
-#[derive(Clone, Debug, PartialEq, Eq, Hash)]
+#[derive(Clone, Debug, PartialEq, Eq, Hash, serde::Serialize, serde::Deserialize)]
 pub enum I {
     Call { peer: PeerRef, svc: String, func: String, args: Vec<Arg>, out: Out },
     Seq(Box<I>, Box<I>),
@@ -247,9 +247,9 @@ pub fn walk<'a>(i: &'a I, f: &mut dyn FnMut(&'a I)) {
 }
 
 /// A generated script with its provenance.
-#[derive(Clone, Debug)]
+#[derive(Clone, Debug, serde::Serialize, serde::Deserialize)]
 pub struct Script {
-    pub family: &'static str,
+    pub family: String,
     pub name: String,
     pub ast: I,
     /// peer names that participate (the first is the init peer)
